@@ -42,6 +42,12 @@ theorem to_from_dict_roundtrip (env : Env) (cls : String) (ps : List (String × 
     simp only [fromDict]
     simp [hasIdent, List.lookup, hi, h2]
 
+/-- **Serialises identically after reload**: `to_dict(from_dict(to_dict(x))) = to_dict(x)` for representable values. -/
+theorem codec_reserialize_stable (env : Env) (v : PVal) (h : Representable env v = true) :
+    ∃ j, serialize v = .ok j ∧ (deserialize env j >>= serialize) = .ok j := by
+  obtain ⟨j, h1, h2⟩ := rt_val env v h
+  exact ⟨j, h1, by rw [h2]; exact h1⟩
+
 /-- **Unrepresentable configurations are rejected at save.**  A value containing, at any depth, a callable whose
     dotted name does not resolve back to it (closures, lambdas), a callable object without a name, or an object
     without any dict spelling is refused by `serialize_value`, with ValueError or (nameless callable) AttributeError. -/
@@ -169,6 +175,14 @@ theorem blt_parse_total_partial (ls : List Line) (hl : lexOK ls = true) :
     · subst h1; exact Or.inr (Or.inl rfl)
     · subst h1; exact Or.inr (Or.inr rfl)
 
+/-- ... and when in addition every ballot line read names candidates 1..n of the header `n s`, nothing but the
+    ParseError is left: `loads` returns a document or raises BLTParseError. -/
+theorem blt_parse_total_inrange (ls : List Line) (hl : lexOK ls = true) (hi : idxOK ls = true) :
+    (∃ d, loadBlt ls = .ok d) ∨ loadBlt ls = .error Err.parseError := by
+  cases h : loadBlt ls with
+  | ok d => exact Or.inl ⟨d, rfl⟩
+  | error e => rw [loadBlt_inrange ls e hl hi h]; exact Or.inr rfl
+
 /-- `"2 1\nabc 1 0\n0"`: decimal.InvalidOperation -/
 theorem blt_parse_total_witness_invalid_operation :
     loadBlt [.toks [.nat 2, .nat 1], .toks [.bad, .nat 1, .nat 0], .toks [.nat 0]] = .error (Err.other "InvalidOperation") := by
@@ -209,7 +223,11 @@ def exDoc : Doc Weight :=
     title := some "Council" }
 example : WFdoc exDoc = true := by decide +kernel
 example : lexOK (dumpBlt exDoc) = true := by decide +kernel
-example : lexOK [.toks [.nat 2, .nat 1], .toks [.nat 1, .nat 1], .toks [.nat 0]] = true := by decide +kernel
+example : idxOK (dumpBlt exDoc) = true := by decide +kernel
+/-- a structurally broken but lexically sane text: ballot not zero-terminated -/
+example : lexOK [.toks [.nat 2, .nat 1], .toks [.nat 1, .nat 1], .toks [.nat 0]] = true
+    ∧ idxOK [.toks [.nat 2, .nat 1], .toks [.nat 1, .nat 1], .toks [.nat 0]] = true
+    ∧ loadBlt [.toks [.nat 2, .nat 1], .toks [.nat 1, .nat 1], .toks [.nat 0]] = .error Err.parseError := by decide +kernel
 
 
 end BltPart
@@ -218,8 +236,13 @@ end BltPart
 namespace Stv
 open VL.StvFile
 
+/-- **Nicknames never collide**: what `_candidate_nicks` assigns (the initials, or base-26 ordinal letters as soon as
+    two candidates share initials) is pairwise different for every list of names, of any length. -/
+theorem stv_nicks_distinct (initials : List String) : (candidateNicks initials).Nodup :=
+  candidateNicks_nodup initials
+
 /-- **Round trip** of the section `_dump_ballots` writes: with the nicknames `_candidate_nicks` assigns (initials, or
-    ordinal letters as soon as two candidates share initials) pairwise different and non-empty, ballots naming listed
+    ordinal letters as soon as two candidates share initials) non-empty, ballots naming listed
     candidates, pairwise different, weights with a multiplier spelling, no weight-1 empty ballot and no weight-1 ballot
     whose only nickname is `end`, the reader returns the same candidates (names, withdrawn flags, order) and the same
     ballots with their weights. -/
